@@ -517,9 +517,38 @@ def edge_shortcut(today, flags):
     lo, hi = shortcut_bounds(n, today)
     return lo < LO or hi > HI
 
+BOUNDARY_DATES = [(2019, 12, 29), (2019, 12, 30), (2019, 12, 31), (2020, 1, 1), (2020, 1, 5), (2020, 1, 6), (2020, 2, 29), (2020, 3, 31), (2020, 4, 1),
+                  (2020, 12, 27), (2020, 12, 28), (2020, 12, 31), (2021, 1, 1), (2021, 1, 3), (2021, 1, 4)]
+BOUNDARY_PERIODS = ["2019", "2020", "2021", "2019-12", "2020-01", "2020-02", "2020-12", "2021-01", "2019-Q4", "2020-Q1", "2020-Q2", "2020-Q4", "2021-Q1",
+                    "2019-W52", "2020-W01", "2020-W1", "2020-W02", "2020-W09", "2020-W14", "2020-W52", "2020-W53", "2021-W01", "2021-W1"]
+
+def boundary_cases(rng):
+    """one file with a record on each side of every year / ISO-week-year / quarter / month boundary around 2020, and every
+       single date clause with every one of these dates as query date / clock date (a complete grid, run on every check)"""
+    doc, vocab = make_doc(rng, (2020, 1, 1), big=True, nrec=len(BOUNDARY_DATES))
+    order = list(BOUNDARY_DATES); rng.shuffle(order)
+    for r, ymd in zip(doc.records, order):
+        r.ymd = ymd
+    cases = [[("period", p)] for p in BOUNDARY_PERIODS]
+    for d in BOUNDARY_DATES:
+        for n in ("date", "since", "until", "after", "before"):
+            cases.append([(n, "%04d-%02d-%02d" % d)])
+    out = []
+    for fl in cases:
+        out.append(((2020, 6, 15), rng.choice([None, "asc", "desc"]), fl, doc))
+    for d in BOUNDARY_DATES:
+        for n in ["today", "yesterday", "tomorrow"] + list(SHORTCUTS):
+            out.append((d, None, [(n, None)], doc))
+    return out
+
 def gen_filter(tier, rng):
     n = 2300 if tier == "quick" else 200000
     out = []
+    for today, sort, flags, doc in boundary_cases(rng):
+        req = request(today, sort, flags, doc)
+        EXPECT[req] = reference(doc, today, sort, flags)
+        INFO[req] = (today, flags)
+        out.append(req)
     while len(out) < n:
         doc, today, sort, flags = build(rng, big=(rng.random() < 0.02))
         if has_conflict(flags):
@@ -675,7 +704,7 @@ def suites():
         Suite("filter", gen_filter, oracle=oracle, nontrivial=nontrivial,
               rule="`klog print --no-style` with at most one clause per bound (since|after, until|before, period, the 16 relative shortcuts, "
                    "date|today|yesterday|tomorrow) x 0-3 --tag x --entry-type (13 spellings) x --sort, flags in random order, on generated files "
-                   "(dates clustered around year/ISO-week/quarter/month boundaries, leap days, years 0000 and 9999; duplicates; query dates equal "
+                   "(a complete grid of single date clauses x 15 dates around the 2019/2020/2021 year, ISO-week-year, quarter and month boundaries first; then dates clustered around year/ISO-week/quarter/month boundaries, leap days, years 0000 and 9999; duplicates; query dates equal "
                    "to record dates and their neighbours; tags with/without values, quoted values, mixed case, in record and entry summaries; "
                    "2% files of 13-40 records for --sort); clock in 0000-01-02..9999-12-30; non-trivial = at least one record selected"),
         Suite("json", gen_json, oracle=oracle, nontrivial=nontrivial,
